@@ -774,6 +774,7 @@ func replay() int {
 // pkgpath.Recv.Name<TAB>signature<TAB>configs, with -dumpfuncs -dumpfields every field of a named struct.
 func dumpFuncs() int {
 	sig := map[string]string{}
+	extra := map[string]string{}
 	cfgs := map[string][]string{}
 	for _, cfg := range rules.Matrix {
 		p, err := core.Load(*flagRepo, cfg, nil)
@@ -842,6 +843,7 @@ func dumpFuncs() int {
 						f := st.Field(i)
 						k := core.FieldKey(pk.PkgPath, name, f.Name())
 						sig[k] = types.TypeString(f.Type(), func(p *types.Package) string { return p.Path() })
+						extra[k] = strconv.Itoa(i)
 						cfgs[k] = append(cfgs[k], cfg.String())
 					}
 				}
@@ -851,6 +853,9 @@ func dumpFuncs() int {
 				if fn, ok := obj.(*types.Func); ok && p.RawDecl(fn) != nil {
 					k := core.FuncKey(fn)
 					sig[k] = core.SigString(fn)
+					if _, seen := extra[k]; !seen {
+						extra[k] = core.Fingerprint(pk.TypesInfo, p.RawDecl(fn))
+					}
 					cfgs[k] = append(cfgs[k], cfg.String())
 				}
 			}
@@ -870,7 +875,7 @@ func dumpFuncs() int {
 			fmt.Printf("=== %s\n%s\n", k, sig[k])
 			continue
 		}
-		fmt.Printf("%s\t%s\t%s\n", k, sig[k], strings.Join(sortedKeys(cs), ";"))
+		fmt.Printf("%s\t%s\t%s\t%s\n", k, sig[k], strings.Join(sortedKeys(cs), ";"), extra[k])
 	}
 	return 0
 }
